@@ -23,6 +23,16 @@ from .sym import Ctx, PathEnd, SymBase, SymBool, SymInt, SymReal, Unsupported, V
 OBLIGATION_TIMEOUT_MS = int(os.environ.get("PYVC_Z3_TIMEOUT_MS", "20000"))
 CVC5_TIMEOUT_MS = int(os.environ.get("PYVC_CVC5_TIMEOUT_MS", "30000"))
 Z3_QUICK_MS = int(os.environ.get("PYVC_Z3_QUICK_MS", "3000"))
+
+
+def _load_scale() -> float:
+    """solver budgets are wall-clock: stretch them when the machine is oversubscribed so that a
+    verdict does not flip to `unknown` because other checks are running"""
+    try:
+        return min(6.0, max(1.0, os.getloadavg()[0] / (os.cpu_count() or 1)))
+    except OSError:
+        return 1.0
+
 CVC5_BIN = os.environ.get("PYVC_CVC5", "/usr/bin/cvc5")
 WORKDIR = os.path.join(os.path.dirname(os.path.dirname(os.path.abspath(__file__))), ".work")
 
@@ -222,7 +232,7 @@ class Recorder:
         rel, n_rel = c.relevant(t)
         if n_rel < len(c.pc):
             s1 = z3.Solver()
-            s1.set("timeout", 8000)
+            s1.set("timeout", int(8000 * _load_scale()))
             for a_ in rel:
                 s1.add(a_)
             s1.add(z3.Not(t))
@@ -233,6 +243,32 @@ class Recorder:
                 self.solver_time += time.time() - t0
                 self.instances.append(inst)
                 return
+        # (b) the same cone without its nonlinear facts, and (c) with nonlinear products abstracted to an
+        # uninterpreted function (congruence is often all a claim needs): both only ever weaken the
+        # assumptions, so `unsat` carries over to the real problem
+        if any(sym.is_nonlinear(a_) for a_ in rel) or sym.is_nonlinear(t):
+            lin = [a_ for a_ in rel if not sym.is_nonlinear(a_)]
+            attempts = []
+            if not sym.is_nonlinear(t):
+                attempts.append(("linear-slice", lin, t))
+            cache = {}
+            attempts.append(("uf-abstraction", [sym.abstract_nonlinear(a_, cache) for a_ in rel], sym.abstract_nonlinear(t, cache)))
+            for how, assumptions, claim_t in attempts:
+                s1 = z3.Solver()
+                s1.set("timeout", int(5000 * _load_scale()))
+                for a_ in assumptions:
+                    s1.add(a_)
+                s1.add(z3.Not(claim_t))
+                c.n_solver_calls += 1
+                r1 = s1.check()
+                if os.environ.get("PYVC_DUMP"):
+                    print(f"[pyvc] {oid}: attempt {how}: {r1} ({len(assumptions)} assumptions of {len(c.pc)})", flush=True)
+                if r1 == z3.unsat:
+                    inst.update(status="discharged", backend="z3", time=round(time.time() - t0, 4), sliced=how)
+                    self.by_backend["z3"] += 1
+                    self.solver_time += time.time() - t0
+                    self.instances.append(inst)
+                    return
         # first attempt: only the quantifier-free part of the path condition (fewer assumptions:
         # `unsat` there is `unsat` everywhere) -- keeps cheap obligations cheap on quantifier-heavy paths
         if any(c.pc_quant) and not sym.has_quant(t):
@@ -268,15 +304,25 @@ class Recorder:
                 with open(os.path.join(WORKDIR, f"unknown_{abs(hash(oid)) % 10000}_{len(self.instances)}.smt2"), "w") as fh:
                     fh.write("; " + oid + "\n(set-logic ALL)\n" + smt2)
             if smt2 is not None and "lambda" not in smt2:
-                cr = _cvc5_check(smt2, CVC5_TIMEOUT_MS)
+                cr = _cvc5_check(smt2, int(CVC5_TIMEOUT_MS * _load_scale()))
                 if cr == "unsat":
                     status, backend = "discharged", "cvc5"
                 elif cr == "sat":
                     status, backend = "failed", "cvc5"
             if status == "unknown":
-                s.set("timeout", OBLIGATION_TIMEOUT_MS)
+                s.set("timeout", int(OBLIGATION_TIMEOUT_MS * _load_scale()))
                 r = s.check()
                 status = "discharged" if r == z3.unsat else ("failed" if r == z3.sat else "unknown")
+            if status == "unknown" and n_rel < len(c.pc):
+                # last attempt: the sliced problem again with the long budget
+                s1 = z3.Solver()
+                s1.set("timeout", int(OBLIGATION_TIMEOUT_MS * _load_scale()))
+                for a_ in rel:
+                    s1.add(a_)
+                s1.add(z3.Not(t))
+                c.n_solver_calls += 1
+                if s1.check() == z3.unsat:
+                    status, r = "discharged", z3.unsat
         if status == "failed" and backend == "cvc5":
             # get a model from z3 if it can produce one now
             s.set("timeout", OBLIGATION_TIMEOUT_MS)
@@ -410,6 +456,14 @@ def make_stub(C: Contract, raw_fn):
                     ok = None
                 if ok is not True:
                     c.check(False if ok is False else sym.SymBool(z3.Or(*[sym.to_bool_term(v == a) for a in allowed if isinstance(a, (int, float))] or [z3.BoolVal(False)])), f"call-pre:{C.fn}#case:{pname}", kind="call-pre", callee=C.fn, note=f"argument {pname}={v!r} is outside the input cases the contract of {C.fn} covers ({allowed!r})")
+        # ... and so are the declared ranges of numeric parameters and the relations that tie a
+        # `Derived` parameter to the (ghost) inputs it is computed from: the body was verified only
+        # for arguments of that form
+        if C.verify and C.inputs is not None and (gvals is not None or not ghosts):
+            adm = shapes_admit(C, bound, env)
+            if adm is not True:
+                c.check(adm, f"call-pre:{C.fn}#shape", kind="call-pre", callee=C.fn, note=f"the arguments are outside every input case of the contract of {C.fn} (numeric ranges / derived-argument relations)")
+                c.assume(adm)
         ghost_reqs = []
         for i, r in enumerate(C.requires):
             uses_ghost = bool(ghosts and set(inspect.signature(r).parameters) & ghosts)
@@ -453,6 +507,96 @@ def make_stub(C: Contract, raw_fn):
     stub.__name__ = getattr(raw_fn, "__name__", "stub")
     stub.__vc_stub_of__ = C.fn
     return stub
+
+
+def shape_admits(shape, v, env):
+    """True / False / SymBool: does value `v` lie in `shape`?  Only what a proof relied on is checked:
+    numeric ranges, constants, derived relations, tuples thereof; object shapes are admitted as is
+    (their invariants are `requires` clauses)."""
+    from .contract import Const, Int, Real, Tup
+
+    num = lambda x: isinstance(x, (SymInt, SymReal)) or (isinstance(x, (int, float)) and not isinstance(x, bool))
+    if isinstance(shape, Derived):
+        try:
+            want = call_by_name(shape.fn, env)
+        except VcAbort:
+            raise
+        except Exception:  # pylint: disable=broad-except
+            return True
+        if num(want) and num(v):
+            return v == want
+        return True
+    if isinstance(shape, (Int, Real)):
+        if not num(v):
+            return False if (v is None or isinstance(v, (str, tuple, list))) else True
+        cs = []
+        for op, b in (("ge", getattr(shape, "ge", None)), ("le", getattr(shape, "le", None)), ("gt", getattr(shape, "gt", None)), ("lt", getattr(shape, "lt", None))):
+            if b is None:
+                continue
+            cs.append(v >= b if op == "ge" else v <= b if op == "le" else v > b if op == "gt" else v < b)
+        out = True
+        for x in cs:
+            if isinstance(x, SymBool):
+                out = x if out is True else SymBool(z3.And(sym.to_bool_term(out), x.t))
+            elif not x:
+                return False
+        return out
+    if isinstance(shape, Const):
+        a = shape.v
+        if a is None or isinstance(a, (bool, str)):
+            if isinstance(v, SymBase):
+                return False if a is None or isinstance(a, str) else True
+            return (v is a) or (type(v) is type(a) and v == a)
+        if isinstance(a, (int, float)):
+            import math as _m
+
+            if isinstance(a, float) and not _m.isfinite(a):
+                if isinstance(v, SymBase):
+                    return False  # symbolic reals are finite
+                return isinstance(v, float) and (v == a or (_m.isnan(a) and _m.isnan(v)))
+            if isinstance(v, (SymInt, SymReal)):
+                return v == a
+            return isinstance(v, (int, float)) and not isinstance(v, bool) and v == a
+        return True
+    if isinstance(shape, Tup):
+        if not isinstance(v, (tuple, list)):
+            return True
+        if len(v) != len(shape.elems):
+            return False
+        out = True
+        for e, x in zip(shape.elems, v):
+            r = shape_admits(e, x, env)
+            if r is False:
+                return False
+            if r is not True:
+                out = r if out is True else SymBool(z3.And(sym.to_bool_term(out), sym.to_bool_term(r)))
+        return out
+    return True
+
+
+def shapes_admit(C: Contract, bound, env):
+    """disjunction over the input cases of the contract"""
+    alts = []
+    for cs in C.cases():
+        acc = True
+        for p, shape in cs.items():
+            if p not in bound:
+                continue
+            r = shape_admits(shape, bound[p], env)
+            if r is False:
+                acc = False
+                break
+            if r is not True:
+                acc = r if acc is True else SymBool(z3.And(sym.to_bool_term(acc), sym.to_bool_term(r)))
+        if acc is True:
+            return True
+        if acc is not False:
+            alts.append(acc)
+    if not alts:
+        return False
+    if len(alts) == 1:
+        return alts[0]
+    return SymBool(z3.Or(*[sym.to_bool_term(a) for a in alts]))
 
 
 def _forall_ghosts(C: Contract, c: Ctx, clause, env, ghost_reqs):
@@ -500,6 +644,10 @@ def _forall_ghosts(C: Contract, c: Ctx, clause, env, ghost_reqs):
     try:
         for r in ghost_reqs:
             antecedents.append(sym.to_bool_term(call_by_name(r, genv)))
+        if C.verify and C.inputs is not None:
+            adm = shapes_admit(C, {k: v for k, v in env.items() if k not in ghosts}, genv)
+            if adm is not True:
+                antecedents.append(sym.to_bool_term(adm) if adm is not False else z3.BoolVal(False))
         body = sym.to_bool_term(call_by_name(clause, genv))
     finally:
         c.quant_depth -= 1
@@ -516,8 +664,10 @@ def install_stubs(exclude: Optional[str], unstub=()):
             continue
         try:
             mod, owner, attr, raw = shadow.resolve(ref)
-        except (KeyError, AttributeError, ImportError):
-            continue
+        except (KeyError, AttributeError, ImportError) as e:
+            # a contract on a function that does not exist (renamed / moved / defined on a base class)
+            # would silently leave the real body in place: that is a checker error, not a skip
+            raise RuntimeError(f"contract target {ref} cannot be resolved in the tree under verification: {type(e).__name__}: {e}") from e
         if isinstance(raw, staticmethod):
             fn = raw.__func__
             new = staticmethod(make_stub(C, fn))
